@@ -86,7 +86,8 @@ def parse_ans(a):
         sh, dt = a[3:].split(' ')
         sh = sh[len('shape='):]
         dt = dt[len('data='):]
-        vals = [] if dt == '[]' else [float(x) for x in dt.split(',')]
+        # the Lean model prints a non-integral rational element as `num/den`
+        vals = [] if dt == '[]' else [float(Fraction(x)) if '/' in x else float(x) for x in dt.split(',')]
         return sh, vals
     except ValueError:
         return None
